@@ -59,6 +59,12 @@ const SNAPSHOT_RETENTION_COUNT: usize = 3;
 /// Lock file name for crash detection
 const LOCK_FILE_NAME: &str = ".state.lock";
 
+/// File holding the WAL integrity key
+const KEY_FILE_NAME: &str = ".state.key";
+
+/// Length of the WAL integrity key in bytes
+const HMAC_KEY_LEN: usize = 32;
+
 /// WAL file extension
 const WAL_EXTENSION: &str = "wal";
 
@@ -459,9 +465,32 @@ impl<T: Serialize + for<'de> Deserialize<'de> + Clone + PartialEq + Send + Sync 
             ))
         })?;
 
-        // Generate HMAC key
-        let mut hmac_key_bytes = vec![0u8; 32];
-        rand::thread_rng().fill_bytes(&mut hmac_key_bytes);
+        // Load the integrity key written by an earlier process, or create it. The key has to
+        // outlive the process: entries written before a restart are verified with it during
+        // recovery, so a per-process key would make every earlier entry fail verification.
+        let key_path = config.state_dir.join(KEY_FILE_NAME);
+        let hmac_key_bytes = match std::fs::read(&key_path) {
+            Ok(bytes) if bytes.len() == HMAC_KEY_LEN => bytes,
+            _ => {
+                let mut bytes = vec![0u8; HMAC_KEY_LEN];
+                rand::thread_rng().fill_bytes(&mut bytes);
+                let tmp_path = key_path.with_extension("tmp");
+                {
+                    let mut options = OpenOptions::new();
+                    options.create(true).write(true).truncate(true);
+                    #[cfg(unix)]
+                    {
+                        use std::os::unix::fs::OpenOptionsExt;
+                        options.mode(STATE_FILE_PERMISSIONS);
+                    }
+                    let mut file = options.open(&tmp_path)?;
+                    file.write_all(&bytes)?;
+                    file.sync_all()?;
+                }
+                std::fs::rename(&tmp_path, &key_path)?;
+                bytes
+            }
+        };
         let hmac_key = SecureMemory::from_slice(&hmac_key_bytes)?;
 
         // Create WAL writer
